@@ -229,7 +229,10 @@ def remove (s : MState) (f : Nat) : MState :=
       fuzzy := aretainDrop s.fuzzy (lastSeg i.path) (fun x => x ≠ f) }
 
 /-- `LuaIndex::clear` (`id_counter`, patterns, workspaces are not touched) -/
-def clear (_ : MState) : MState := { nodes := [([], [])], infos := [], fuzzy := [] }
+def clear (s : MState) : MState :=
+  { nodes := if survivesClear (some ("modules_index", "module_nodes")) then s.nodes else [([], [])]
+    infos := if survivesClear (some ("modules_index", "file_module_map")) then s.infos else []
+    fuzzy := if survivesClear (some ("modules_index", "module_name_to_file_ids")) then s.fuzzy else [] }
 
 /-- the descent of `add_module_by_module_path`: create the missing nodes along the path -/
 def ensurePrefixes (nodes : List (MPath × List Nat)) (acc : MPath) : List Seg → List (MPath × List Nat)
